@@ -177,11 +177,15 @@ LEVEL_TEXT = ("Machine-checked theorems about the library's TLS glue (Read/Write
               "Legacy configurations with proved violations. Completion of the handshake is proved for the real glue model composed "
               "twice over two FIFO channels with a reference handshake engine (handshake_completes_partial: both endpoints synchronous, "
               "timeout 0, polling schedule [c.Send, s.Receive, s.Send, c.Receive], every flight size, payload, receive size and wire "
-              "segmentation; explicit bound 2(k1+k2+k3+3) rounds; no call throws; decreasing measure round_progress); for the other "
+              "segmentation; explicit bound 2(k1+k2+k3+3) rounds; no call throws; decreasing measure round_progress), followed by the payload phase "
+              "for the call order that exposed F7 (send_after_idle_receive_flows) and the refutation of the pre-319faf2 glue in the same "
+              "composition (legacy_stall_state_reached, legacy_polling_schedule_stalls: handshake done, channels empty for ever); for the other "
               "pairings / timeout modes / call orders it is established by the exhaustive implementation matrix only. Tied to /repo on every run: the real sockets run the pairing matrix against real OpenSSL; "
               "every SSL_read/SSL_write_ex answer, BIO callback and poll/send/recv is replayed into the model, which must make the "
               "same calls and return the same results; Spec.C18 is evaluated on the raw bytes and API results.")
-LEVEL_NOTE = ("Trusted: Lean kernel; axioms propext/Quot.sound/Classical.choice; the hand-written model (correspondence on the "
+LEVEL_NOTE = ("handshake_completes is proved ONLY in the restricted form handshake_completes_partial (sync/sync, timeout 0, polling "
+              "schedule, reference engine, healthy channel, any read segmentation); the pre-ee81033 variant is refuted at the single-endpoint "
+              "level only (the healthy channel of the composition never refuses a write). Trusted: Lean kernel; axioms propext/Quot.sound/Classical.choice; the hand-written model (correspondence on the "
               "generated matrix only); harness, vos shim and the OpenSSL interposers. Confidentiality and the TLS protocol itself are "
               "OpenSSL's (assumed); handshake completion for async endpoints and blocking timeouts rests on the pollout_protocol "
               "invariant plus the exhaustive implementation matrix, not on a single liveness theorem. Open known finding F8 "
